@@ -34,11 +34,11 @@ type SpecExpr struct {
 }
 
 type LoopSpec struct {
-	Invariants []Clause
-	Decreases  *Clause
-	IterGhosts []GhostDecl // ghost variables (re)initialised at the start of every iteration
-	IterEnsures []Clause   // checked at the end of every iteration (back edge)
-	Exhaustive bool        // the loop is only left through its header (no break) or by returning
+	Invariants  []Clause
+	Decreases   *Clause
+	IterGhosts  []GhostDecl // ghost variables (re)initialised at the start of every iteration
+	IterEnsures []Clause    // checked at the end of every iteration (back edge)
+	Exhaustive  bool        // the loop is only left through its header (no break) or by returning
 }
 
 type Hook struct {
@@ -54,37 +54,37 @@ type GhostDecl struct {
 }
 
 type Contract struct {
-	Key        string // package-relative function key, e.g. "(*Unknown).ReadFrom"
-	PkgPath    string
-	Iface      bool
-	Requires   []Clause
-	Ensures    []Clause
-	Modifies   []Clause
-	ModifiesAll bool
-	Loops      map[int]*LoopSpec
-	Hooks      map[string][]Hook // "callee#k" -> hooks
-	Ghosts     []GhostDecl
-	Inline     bool
-	Trusted    string
-	MayPanic   bool
-	OpaqueInterior string // reason: interior pointers stored into the heap are opaque handles (assumption)
-	Pure       bool // modifies nothing visible to the caller (checked on the body), deterministic
-	Det        bool // result and effects are functions of the inputs (every callee is det)
-	Opaque     bool
-	Props      []string
-	File       string
-	Line       int
-	Extern     bool
-	NoBody     bool // contract is used at call sites only (body not verified)
-	Assumes    []Clause // assumed at entry, listed as assumptions (API-boundary facts)
-	EnsuresLocal []Clause // proved on the body, not exported to callers (may mention ghosts and events)
-	EnsuresAssumed []Clause // postconditions used at call sites but NOT proved on the body (listed as assumptions)
-	Fresh      bool // result is a fresh object (extern)
-	LockChans  []string
-	Shutdown   []string // channel subjects one of which every blocking select must receive from
-	MayBlock   []string // blocking operations outside a select that are accepted (each listed in evidence)
+	Key              string // package-relative function key, e.g. "(*Unknown).ReadFrom"
+	PkgPath          string
+	Iface            bool
+	Requires         []Clause
+	Ensures          []Clause
+	Modifies         []Clause
+	ModifiesAll      bool
+	Loops            map[int]*LoopSpec
+	Hooks            map[string][]Hook // "callee#k" -> hooks
+	Ghosts           []GhostDecl
+	Inline           bool
+	Trusted          string
+	MayPanic         bool
+	OpaqueInterior   string // reason: interior pointers stored into the heap are opaque handles (assumption)
+	Pure             bool   // modifies nothing visible to the caller (checked on the body), deterministic
+	Det              bool   // result and effects are functions of the inputs (every callee is det)
+	Opaque           bool
+	Props            []string
+	File             string
+	Line             int
+	Extern           bool
+	NoBody           bool     // contract is used at call sites only (body not verified)
+	Assumes          []Clause // assumed at entry, listed as assumptions (API-boundary facts)
+	EnsuresLocal     []Clause // proved on the body, not exported to callers (may mention ghosts and events)
+	EnsuresAssumed   []Clause // postconditions used at call sites but NOT proved on the body (listed as assumptions)
+	Fresh            bool     // result is a fresh object (extern)
+	LockChans        []string
+	Shutdown         []string // channel subjects one of which every blocking select must receive from
+	MayBlock         []string // blocking operations outside a select that are accepted (each listed in evidence)
 	InvokesOnSuccess []string // function-typed parameters called exactly once (returning nil) when the callee's last result is nil
-	Callsback  []string // extern: the callee acts only through these methods of its first argument
+	Callsback        []string // extern: the callee acts only through these methods of its first argument
 }
 
 type SpecFunc struct {
@@ -112,8 +112,8 @@ type SpecDB struct {
 	Funcs     map[string]*SpecFunc
 	Axioms    []Axiom
 	Files     []string
-	LockChans map[string]bool // "pkgpath.Type.field" channel used as a lock
-	Protects  map[string]string // "pkgpath.Type.field" -> mutex field of the same struct that must be held
+	LockChans map[string]bool     // "pkgpath.Type.field" channel used as a lock
+	Protects  map[string]string   // "pkgpath.Type.field" -> mutex field of the same struct that must be held
 	GInv      map[string][]GInv   // pkgpath -> invariants over package-level variables (established by init, no other writers)
 	NonNil    map[string][]string // pkgpath -> package-level variables initialised non-nil and never reassigned
 }
@@ -733,26 +733,26 @@ func (db *SpecDB) keysFor(pkgPath string) []string {
 // evaluation
 
 type SpecEnv struct {
-	st      *State
-	old     *State
-	vars    map[string]Val
-	results []Val
-	resNames []string
-	fn      *ssa.Function
-	pkg     *types.Package
-	locals  func(name string) (Val, bool)
-	loopOrd int             // ordinal of the loop whose clause is being evaluated (iteration clauses)
-	scope   *ssa.BasicBlock // program point of the clause: only variables declared in dominating blocks are in scope
-	inOld   bool
-	freeVars map[string]*PtrInfo // captured variables of a closure under verification
-	entryParams map[string]Val // entry values of the parameters (what old(p) means; also p itself in pre/postconditions)
-	callSite bool // evaluating a callee's postcondition as an assumption
-	noRename bool
-	clause   string // text of the clause being evaluated (key of the recorded bindings)
-	newThread bool // evaluating a goroutine's precondition at its go statement: the new thread holds no lock
-	freshLo  Term // call site: objects allocated by the callee are above this
-	facts   []Term
-	what    string
+	st          *State
+	old         *State
+	vars        map[string]Val
+	results     []Val
+	resNames    []string
+	fn          *ssa.Function
+	pkg         *types.Package
+	locals      func(name string) (Val, bool)
+	loopOrd     int             // ordinal of the loop whose clause is being evaluated (iteration clauses)
+	scope       *ssa.BasicBlock // program point of the clause: only variables declared in dominating blocks are in scope
+	inOld       bool
+	freeVars    map[string]*PtrInfo // captured variables of a closure under verification
+	entryParams map[string]Val      // entry values of the parameters (what old(p) means; also p itself in pre/postconditions)
+	callSite    bool                // evaluating a callee's postcondition as an assumption
+	noRename    bool
+	clause      string // text of the clause being evaluated (key of the recorded bindings)
+	newThread   bool   // evaluating a goroutine's precondition at its go statement: the new thread holds no lock
+	freshLo     Term   // call site: objects allocated by the callee are above this
+	facts       []Term
+	what        string
 }
 
 type specError struct{ msg string }
@@ -1383,7 +1383,7 @@ func (env *SpecEnv) evalCall(x *ast.CallExpr) Val {
 			// choose a (multi-)pattern over both variables
 			if strings.HasPrefix(body.S, "(forall (") {
 				if k := strings.Index(body.S, ")) "); k > 0 {
-					binders := body.S[len("(forall ("):k+1]
+					binders := body.S[len("(forall (") : k+1]
 					inner := body.S[k+3 : len(body.S)-1]
 					return boolVal(Term{fmt.Sprintf("(forall ((%s Int) %s) (=> %s %s))", bv.S, binders, rng.S, inner), SBool})
 				}
